@@ -1,6 +1,8 @@
 package checks
 
 import (
+	"crypto/sha256"
+	"crypto/sha512"
 	"fmt"
 	"strings"
 
@@ -15,7 +17,7 @@ import (
 func init() {
 	fw.Register(&fw.Check{
 		ID:          "C06",
-		Rule:        "cases: JSON values (as Go values and as raw re-spelled bytes) hashed with codes 18/19 and every unsupported code in a list; validation of each value, every re-spelling and 6 single-point modifications against hashes of both algorithms; prefix-code queries against 6 algorithm lists; labelled malformed encodings (non-alphabet, padded, wrong length field, truncated, empty, one byte). Oracle: own base64url/varint/multihash codec + reference JCS. distinct = distinct (shape of value, mutation kind) and malformed classes.",
+		Rule:        "cases: JSON values (as Go values and as raw re-spelled bytes) hashed with codes 18/19 and every unsupported code (complete sweep of 0..0x1ffff plus codes whose low 8/16/24/32/56 bits equal 18 or 19; also as the prefix of a hash to validate); validation of each value, every re-spelling and 6 single-point modifications against hashes of both algorithms; prefix-code queries against 6 algorithm lists; labelled malformed encodings (non-alphabet, padded, wrong length field, truncated, empty, one byte). Oracle: own base64url/varint/multihash codec + reference JCS. distinct = distinct (shape of value, mutation kind) and malformed classes.",
 		Assumptions: []string{"crypto/sha256, crypto/sha512", "harness JCS oracle (validated by C05's self-test vectors)"},
 		Require:     []string{"calc", "validate-equal", "validate-modified", "validate-noncanonical-spelling", "malformed", "unsupported-code", "calculate-id"},
 		Run:         runC06,
@@ -38,6 +40,59 @@ func runC06(r *fw.Runner) {
 	}
 	for b := 0; b < r.N(20, 200); b++ {
 		r.Case("malformed", func(c *fw.Case) { c06Malformed(c, r.N(60, 200)) })
+	}
+	// complete sweep of the small code space plus every code whose low 8 / 16 / 32 bits look like a supported one
+	const shards = 8
+	for sh := 0; sh < shards; sh++ {
+		sh := sh
+		r.Case("unsupported-code-sweep", func(c *fw.Case) {
+			v := map[string]interface{}{"a": 1}
+			d256 := sha256.Sum256(oracle.MustJCS(v))
+			d512 := sha512.Sum512(oracle.MustJCS(v))
+			var codes []uint
+			for code := uint(sh); code < 0x20000; code += shards {
+				codes = append(codes, code)
+			}
+			if sh == 0 {
+				for k := uint(1); k < 256; k++ {
+					for _, low := range []uint{18, 19} {
+						codes = append(codes, k<<8|low, k<<16|low, k<<24|low, k<<32|low, k<<56|low)
+					}
+				}
+			}
+			for _, code := range codes {
+				if code == 18 || code == 19 {
+					continue
+				}
+				c.Count("unsupported-code", 1)
+				c.Evals(3)
+				if h, err := hashing.CalculateModelMultihash(v, code); err == nil {
+					c.Failf("unsupported-code-accepted", map[string]interface{}{"code": code, "hash": h}, "CalculateModelMultihash accepted unsupported code %d (0x%x)", code, code)
+					return
+				}
+				digest := d256[:]
+				if code&0xff == 19 {
+					digest = d512[:]
+				}
+				if _, err := hashing.ComputeMultihash(code, digest); err == nil {
+					c.Failf("unsupported-code-accepted", map[string]interface{}{"code": code}, "ComputeMultihash accepted unsupported code %d (0x%x)", code, code)
+					return
+				}
+				if _, err := hashing.GetHashFromMultihash(code); err == nil {
+					c.Failf("unsupported-code-accepted", map[string]interface{}{"code": code}, "GetHashFromMultihash accepted unsupported code %d (0x%x)", code, code)
+					return
+				}
+				// a hash whose own prefix names this code is not a model hash of anything
+				if code < 1<<31 {
+					enc := oracle.B64(oracle.WrapDigest(uint64(code), digest))
+					if hashing.IsValidModelMultihash(v, enc) == nil {
+						c.Failf("unsupported-prefix-validates", map[string]interface{}{"code": code, "hash": enc}, "IsValidModelMultihash accepted a hash whose prefix names code %d", code)
+						return
+					}
+				}
+			}
+			c.Sig("unsupported-sweep", sh)
+		})
 	}
 	r.Case("unsupported-codes", func(c *fw.Case) {
 		v := map[string]interface{}{"a": 1}
